@@ -493,4 +493,73 @@ theorem tie_parseInsertStmt_sem (o : Option Nat) (v c : Nat) :
   · simp only [parseMismatchFn]
     by_cases h1 : c > 0 <;> by_cases h2 : c = v <;> simp [h1, h2] <;> omega
 
+/-! ### round 5e: TYPED delegations and TYPED order of effects (not strings compared as a whole: values of the
+extracted inductive types, read by Lean functions) -/
+
+/-- the model action a delegated call stands for (`x` = the task the wrapper was given) -/
+def delegAct (x : Task) : DelegX → Option Act
+  | ⟨.add, [_]⟩ => some (Act.add x)
+  | ⟨.flush, []⟩ => some Act.flush
+  | ⟨.wait, []⟩ => some Act.wait
+  | _ => none
+
+/-- **every delegating entry point IS the model action of the same name** (seeded C11-9: `ChunkExecutor.Wait` calling
+`Flush`): `Add` delegates to `Add` with one argument (bulk: the task itself; chunk: the task wrapped with its declared
+size; sqlx `Insert`: the formatted value), `Flush` / `UpdateOrDelete` to `Flush`, `Wait` to `Wait`; `UpdateStmt` flushes
+and then swaps under `Sync` -/
+theorem tie_wrappers_sem (x : Task) :
+    bulkAddDeleg.map (delegAct x) = [some (ApiCall.add x).act] ∧
+    bulkFlushDeleg.map (delegAct x) = [some ApiCall.flush.act] ∧
+    bulkWaitDeleg.map (delegAct x) = [some ApiCall.wait.act] ∧
+    chunkAddDeleg.map (delegAct x) = [some (ApiCall.add x).act] ∧
+    chunkFlushDeleg.map (delegAct x) = [some ApiCall.flush.act] ∧
+    chunkWaitDeleg.map (delegAct x) = [some ApiCall.wait.act] ∧
+    sqlxInsertDeleg.map (delegAct x) = [some (ApiCall.add x).act] ∧
+    sqlxFlushDeleg.map (delegAct x) = [some ApiCall.flush.act] ∧
+    sqlxUpdateOrDeleteDeleg.map (delegAct x) = [some ApiCall.flush.act] ∧
+    bulkAddDeleg = [⟨.add, ["task"]⟩] ∧ chunkAddDeleg = [⟨.add, ["chunk{ val: task, size: size, }"]⟩] ∧
+    sqlxInsertDeleg = [⟨.add, ["value"]⟩] ∧
+    sqlxUpdateStmtDeleg = [⟨.flush, []⟩, ⟨.sync, ["func"]⟩] ∧ sqlxSetResultHandlerDeleg = [⟨.sync, ["func"]⟩] :=
+  ⟨rfl, rfl, rfl, rfl, rfl, rfl, rfl, rfl, rfl, by decide, by decide, by decide, by decide, by decide⟩
+
+/-- `waitGroup.Done` is released on EVERY path of `executeTasks`, also when the callback panics: `doneExecution` is
+DEFERRED at the top level, first, and called nowhere else (seeded C11-8 moved it inside the RunSafe closure) -/
+def releasesOnPanic (l : List EffX) : Bool :=
+  l.head? == some ⟨0, .deferCall, "pe.doneExecution"⟩ && (l.filter (·.what == "pe.doneExecution")).length == 1
+
+/-- the callback runs directly under `threading.RunSafe` -/
+def callbackProtected (l : List EffX) : Bool :=
+  (l.zip l.tail).any fun p => p.1.kind == .runSafe && p.2 == ⟨p.1.depth + 1, .call, "pe.container.Execute"⟩
+
+/-- `Wait` polls `inflight` at the top level BEFORE it takes the barrier (seeded C11-7 polled inside the Guard) -/
+def pollsBeforeBarrier (l : List EffX) : Bool :=
+  match l.findIdx? (·.kind == .loop), l.findIdx? (·.kind == .guard) with
+  | some i, some j => decide (i < j) && (l[i]?.map (·.depth)) == some 0 && (l[j]?.map (·.depth)) == some 0
+  | _, _ => false
+
+/-- **the order of effects, typed**: what the rows fCall/bCall → fDone/bDone for BOTH outcomes of the callback
+(`panic_loses_own_batch_only`), the rows wSpin → wBarrier → wWait (`stuck_is_rest`), fEnter → fLock → fRemove → fUnlock →
+fExec and aSend → aConfirm rest on -/
+theorem tie_effects_sem :
+    releasesOnPanic executeTasksEffs = true ∧ callbackProtected executeTasksEffs = true ∧
+    pollsBeforeBarrier waitEffs = true ∧
+    executeTasksEffs = [⟨0, .deferCall, "pe.doneExecution"⟩, ⟨0, .call, "pe.hasTasks"⟩, ⟨0, .ifc, "ok"⟩,
+      ⟨1, .runSafe, "threading.RunSafe"⟩, ⟨2, .call, "pe.container.Execute"⟩, ⟨0, .ret, ""⟩] ∧
+    waitEffs = [⟨0, .call, "pe.Flush"⟩, ⟨0, .loop, "atomic.LoadInt32(&pe.inflight) > 0"⟩, ⟨1, .call, "time.Sleep"⟩,
+      ⟨0, .guard, "pe.wgBarrier.Guard"⟩, ⟨1, .call, "pe.waitGroup.Wait"⟩] ∧
+    flushEffs = [⟨0, .call, "pe.enterExecution"⟩, ⟨0, .block, ""⟩, ⟨1, .call, "pe.lock.Lock"⟩,
+      ⟨1, .deferCall, "pe.lock.Unlock"⟩, ⟨1, .call, "pe.container.RemoveAll"⟩, ⟨1, .ret, ""⟩,
+      ⟨0, .call, "pe.executeTasks"⟩, ⟨0, .ret, ""⟩] ∧
+    addEffs = [⟨0, .call, "pe.addAndCheck"⟩, ⟨0, .ifc, "ok"⟩, ⟨1, .send, "pe.commander"⟩, ⟨1, .recv, "pe.confirmChan"⟩] ∧
+    enterExecutionEffs = [⟨0, .guard, "pe.wgBarrier.Guard"⟩, ⟨1, .call, "pe.waitGroup.Add"⟩] := by
+  decide
+
+/-- the predicates have teeth: the shapes of seeded C11-8 and C11-7 fail them -/
+example : releasesOnPanic [⟨0, .ifc, "!pe.hasTasks(tasks)"⟩, ⟨1, .call, "pe.doneExecution"⟩, ⟨1, .ret, ""⟩,
+    ⟨0, .runSafe, "threading.RunSafe"⟩, ⟨1, .call, "pe.container.Execute"⟩, ⟨1, .call, "pe.doneExecution"⟩, ⟨0, .ret, ""⟩] = false := by
+  decide
+example : pollsBeforeBarrier [⟨0, .call, "pe.Flush"⟩, ⟨0, .guard, "pe.wgBarrier.Guard"⟩,
+    ⟨1, .loop, "atomic.LoadInt32(&pe.inflight) > 0"⟩, ⟨2, .call, "time.Sleep"⟩, ⟨1, .call, "pe.waitGroup.Wait"⟩] = false := by
+  decide
+
 end GoZero.C11.Tie
